@@ -152,7 +152,7 @@ def ops_job(params):
             go, gt, gu = _patch(p, 'cubic5')
             T, B = 2, 2
             V = S([[[sym_real(f'v_{t}_{b}_{i}', -5, 5) for i in range(3)] for b in range(B)] for t in range(T)])
-            o = _ori(go, V)
+            o = _ori(go, V.copy())   # the oracle keeps its own pristine copy V
             # normalize
             for t in range(T):
                 for b in range(B):
@@ -169,6 +169,8 @@ def ops_job(params):
                         prove_isolated('normalize: numerator is the vector component', qp[0] == V[t, b, i])
                         prove_isolated('normalize: denominator is the (positive) vector length', conj([qp[1] * qp[1] == q, qp[1] > 0]),
                                        given=[q > 0], timeout_ms=60000)
+            for idx in np.ndindex(V.shape):
+                prove('normalize() leaves the vectors of the source object unchanged', o.vectors[idx] == V[idx])
             # transform
             A = S([[sym_real(f'a_{i}_{j}', -3, 3) for j in range(3)] for i in range(3)])
             tv = o.transform(A).vectors
@@ -219,7 +221,39 @@ def ops_job(params):
                     prove('spherical: r^2 = x^2 + y^2 + z^2', (r ** 2 == q) if isinstance(r, (SRoot, core.SNum)) else False)
             sample(dict(group=group, operations=n_ops))
 
-    return symbolic_job(params, body, None, timeout_ms=120000)
+    return symbolic_job(params, body, ops_job_replay, timeout_ms=120000)
+
+
+def ops_job_replay(params, inputs):
+    import gemdat.orientations as go
+    from pymatgen.symmetry.groups import PointGroup
+    group = params['group']
+    T, B = 2, 2
+    V = np.array([[[float(inputs[f'v_{t}_{b}_{i}']) for i in range(3)] for b in range(B)] for t in range(T)])
+    A = np.array([[float(inputs.get(f'a_{i}_{j}', 1.0 if i == j else 0.0)) for j in range(3)] for i in range(3)])
+    if (np.linalg.norm(V, axis=-1) < 1e-9).any():
+        return True, 'zero vector: outside the claim'
+    o = go.Orientations(_T(), 'B', 'H', in_vectors=V.copy())
+    n = o.normalize().vectors
+    if np.abs(np.linalg.norm(n, axis=-1) - 1).max() > 1e-9 or np.abs(n * np.linalg.norm(V, axis=-1, keepdims=True) - V).max() > 1e-9:
+        return False, f'normalize() result is not the unit vector of each input vector; V={V.tolist()}'
+    if np.abs(o.vectors - V).max() > 1e-12:
+        return False, f'normalize() altered the vectors of the source object: {o.vectors.tolist()} != {V.tolist()}'
+    tv = o.transform(A).vectors
+    if np.abs(tv - np.einsum('ij,tbj->tbi', A, V)).max() > 1e-9:
+        return False, f'transform(A) != A v; V={V.tolist()} A={A.tolist()}'
+    Rs = [np.array(op.rotation_matrix, dtype=float) for op in PointGroup(group).symmetry_ops]
+    sv = o.symmetrize(sym_group=group).vectors
+    for t in range(T):
+        for b in range(B):
+            got = sorted(tuple(np.round(x, 9)) for x in sv[t, b * len(Rs):(b + 1) * len(Rs)].tolist())
+            exp = sorted(tuple(np.round(R @ V[t, b], 9)) for R in Rs)
+            if not np.allclose(np.array(got), np.array(exp), atol=1e-8):
+                return False, f'symmetrize({group}) block of vector {V[t, b].tolist()} is not its images under the group'
+    sph = o.vectors_spherical
+    if np.abs(sph[..., 2] - np.linalg.norm(V, axis=-1)).max() > 1e-9:
+        return False, 'spherical r != vector length'
+    return True, 'ok'
 
 
 # --------------------------------------------------------------------------- autocorrelation
@@ -290,7 +324,7 @@ def autocorr_job_replay(params, inputs):
     return True, 'ok'
 
 
-REPLAYS = dict(vectors_job=vectors_job_replay, autocorr_job=autocorr_job_replay)
+REPLAYS = dict(vectors_job=vectors_job_replay, autocorr_job=autocorr_job_replay, ops_job=ops_job_replay)
 
 
 def jobs(tier, seed):
